@@ -264,6 +264,13 @@ Example C16_example_schema :
   /\ parse_path (fields_of ex_items) (q "a/-10/b/x 1/c/True") = ROk None.
 Proof. exact schema_example. Qed.
 
+(* ':bool' fields read text exactly as _convert_bool does *)
+Example C16_example_bool_spellings :
+  List.map conv_bool [q "True"; q "true"; q "TRUE"; q "tRuE"; q "1"; q "yes"; q "no"; q "f"; q "00"]
+  = [true; true; true; true; true; true; true; true; true]
+  /\ List.map conv_bool [q "False"; q "false"; q "FALSE"; q "fAlSe"; q "0"] = [false; false; false; false; false].
+Proof. exact conv_bool_spellings. Qed.
+
 Example C16_example_mapping :
   let o := orc [j_a1; j_a2] in
   let e := export_model o [j_a1; j_a2] KZip PNone in
